@@ -43,6 +43,13 @@ Lemma wf_if m c t el : wf (EIf m c t el) =
   eused c && wf c && wf_stmts (used m && is_some el) t && match el with Some b => wf_stmts (used m) b | None => true end.
 Proof. destruct el; reflexivity. Qed.
 
+Lemma wf_match m sc cases : wf (EMatch m sc cases) =
+  eused sc && wf sc && forallb (fun c => wf_stmts (used m) (snd c)) cases.
+Proof. reflexivity. Qed.
+
+Lemma wf_return_some m x : wf (EReturn m (Some x)) = eused x && wf x.
+Proof. reflexivity. Qed.
+
 (* ---- sim ------------------------------------------------------------------- *)
 Definition fresh_of (l : list expr) : list (estate * expr) := map (fun e => (SNot, e)) l.
 
@@ -326,6 +333,49 @@ Proof.
     unfold pops. change (entry_pops (fst (SDone, e)) (snd (SDone, e))) with (entry_pops SDone e). rewrite EP. lia.
 Qed.
 
+(* `return`: the pending entries own at most the blocks above the frame's first *)
+Lemma return_unwind_some t : forall bs, 1 + MachineInv.pending t <= length bs ->
+  exists bs', return_unwind t bs = Some bs' /\ 1 <= length bs' /\ (forall P : block -> Prop, Forall P bs -> Forall P bs').
+Proof.
+  induction t as [|[s e] t IH]; intros bs L; cbn [return_unwind].
+  - exists bs. split; [reflexivity|]. cbn in L. split; [lia|auto].
+  - cbn [MachineInv.pending] in L. unfold pops in L. cbn [fst snd] in L.
+    destruct (entry_pops s e).
+    + destruct bs as [|b0 [|b1 bs]]; cbn [length] in L; try lia. cbn [pop_block_list].
+      destruct (IH (b1 :: bs) ltac:(cbn [length]; lia)) as (bs' & R & L' & P'). exists bs'. split; [exact R|]. split; [exact L'|].
+      intros P F. apply P'. now inversion F.
+    + destruct (IH bs ltac:(lia)) as (bs' & R & L' & P'). eauto.
+Qed.
+
+Lemma match_cases_ok p f0 T VS BS NBk U um n spos ty idx payload : forall cases,
+  forallb (fun c => wf_stmts um (snd c)) cases = true -> WT T -> sim T (length VS + binc um) = Some n -> 1 <= n ->
+  MachineInv.pending T <= length BS -> Forall cfv VS -> Forall cfb BS -> cfb NBk ->
+  match payload with Some pl => cfv pl | None => True end -> uses f0 = U ->
+  xres_ok f0 (match_cases p (mkFrame T VS BS NBk U) um spos ty idx payload cases).
+Proof.
+  induction cases as [|[[[pat ppos] binder] body] cases IH]; intros WC W HS C B V BB NB PL UF; cbn [match_cases]; [exact Logic.I|].
+  cbn [forallb snd] in WC. apply andb_prop in WC. destruct WC as [WB WC].
+  specialize (IH WC W HS C B V BB NB PL UF).
+  assert (BLK : forall nb, cfb nb -> xres_ok f0 (XOk (eval_block (mkFrame T VS BS nb U) um body) [])).
+  { intros nb CN. unfold xres_ok. rewrite UF. apply (ok_block _ _ _ _ _ _ _ n); assumption. }
+  destruct (N.eqb pat underscore); [apply BLK; exact NB|].
+  destruct (get_var p (mkFrame T VS BS NBk U) pat) as [pv|]; [|exact Logic.I].
+  assert (HIT : forall t i,
+    xres_ok f0 (if N.eqb ty t && N.eqb idx i
+                then match payload, binder with
+                     | Some pl, Some x =>
+                         XOk (eval_block (set_nextb (mkFrame T VS BS NBk U) (if N.eqb x underscore then [] else [(x, pl)])) um body) []
+                     | None, None => XOk (eval_block (set_nextb (mkFrame T VS BS NBk U) []) um body) []
+                     | _, _ => match_cases p (mkFrame T VS BS NBk U) um spos ty idx payload cases
+                     end
+                else match_cases p (mkFrame T VS BS NBk U) um spos ty idx payload cases)).
+  { intros t i. destruct (N.eqb ty t && N.eqb idx i); [|exact IH].
+    destruct payload as [pl|], binder as [x|]; try exact IH; unfold set_nextb; cbn [todo vals blocks nextb uses]; apply BLK.
+    - destruct (N.eqb x underscore); [constructor|]. constructor; [exact PL|constructor].
+    - constructor. }
+  destruct pv; try exact Logic.I; apply HIT.
+Qed.
+
 Lemma exec_ok p f es e t : prog_ok p -> todo f = (es, e) :: t -> frame_ok false 0 f ->
   xres_ok f (exec p (set_todo f t) es e).
 Proof.
@@ -535,6 +585,32 @@ Proof.
     + cbn [eff] in EF. inversion EF; subst c pr. unfold xres_ok. norm.
       split; [|reflexivity]. apply (ok_frame _ _ _ _ _ n); norm; try assumption;
         try (rewrite <- HS; f_equal; lia); try (cbn [entry_pops] in B; lia).
+  - (* EReturn *)
+    rename e into oe.
+    assert (Wr : wf (EReturn m oe) = true) by exact We.
+    assert (PUSHES : forall es', (es' = SNot \/ exists b, es' = SPart b) -> es = es' ->
+      xres_ok f (let f1 := push_todo (set_todo f t) SDone (EReturn m oe) in
+                 match oe with Some x => XOk (push_todo f1 SNot x) [] | None => XOk (push_val f1 vunit) [] end)).
+    { intros es' K ->. assert (EF' : (c, pr) = (0, uu (EReturn m oe))) by (destruct K as [->|[b ->]]; cbn [eff] in EF; inversion EF; reflexivity).
+      inversion EF'; subst c pr.
+      assert (PB : 1 + MachineInv.pending ((SDone, EReturn m oe) :: t) <= length (blocks f)).
+      { cbn [MachineInv.pending pops fst snd entry_pops] in *. destruct K as [->|[b ->]]; cbn [entry_pops] in B; lia. }
+      destruct oe as [x|]; cbn zeta.
+      - rewrite wf_return_some in We. apply andb_prop in We. destruct We as [Ux Wx].
+        unfold xres_ok. norm. split; [|reflexivity]. apply (ok_frame _ _ _ _ _ n); norm; try assumption.
+        + repeat constructor; cbn [snd]; assumption.
+        + erewrite sim_cons; [|apply eff_fresh; assumption|lia].
+          erewrite sim_cons; [|reflexivity|rewrite !uu_one by assumption; lia].
+          rewrite !uu_one by assumption. simgoal HS.
+      - unfold xres_ok. norm. split; [|reflexivity]. apply (ok_frame _ _ _ _ _ n); norm; try assumption.
+        + constructor; assumption.
+        + constructor; [apply cfv_unit|assumption]. }
+    destruct es as [|b|]; cbn [exec]; [apply (PUSHES SNot); auto|apply (PUSHES (SPart b)); eauto|].
+    cbn [eff] in EF. inversion EF; subst c pr. norm. cbn [entry_pops] in B.
+    destruct (return_unwind_some t (blocks f) ltac:(lia)) as (bs' & R & L' & P'). rewrite R.
+    unfold xres_ok. norm. split; [|reflexivity].
+    apply (ok_frame [] (vals f) bs' (nextb f) (uses f) (length (vals f)));
+      [constructor|reflexivity|exact L|cbn [MachineInv.pending]; lia|exact V|apply P'; exact BB|exact NB].
   - (* EList *)
     rewrite wf_list in We. pose proof (wf_all_used_AU _ We) as A.
     assert (Wl : wf (EList m l) = true) by (now rewrite wf_list).
@@ -624,6 +700,33 @@ Proof.
     + erewrite sim_cons; [|apply eff_fresh; assumption|lia]. rewrite <- HS. f_equal.
       unfold uu. rewrite Ue. unfold eused. cbn [emeta]. lia.
     + cbn [MachineInv.pending pops fst snd entry_pops]. destruct es as [|[]|]; cbn [entry_pops] in B; lia.
+  - (* EMatch *)
+    rename e into sc.
+    assert (Wm : wf (EMatch m sc cases) = true) by exact We.
+    rewrite wf_match in We. apply andb_prop in We; destruct We as [We Wcs]; apply andb_prop in We; destruct We as [Us Ws].
+    destruct es as [|b|]; cbn [exec].
+    + cbn [eff] in EF. inversion EF; subst c pr. unfold xres_ok. norm.
+      split; [|reflexivity]. apply (ok_frame _ _ _ _ _ n); norm; try assumption.
+      * repeat constructor; cbn [snd]; assumption.
+      * erewrite sim_cons; [|apply eff_fresh; assumption|lia].
+        erewrite sim_cons; [|reflexivity|rewrite !uu_one by assumption; lia].
+        rewrite !uu_one by assumption. simgoal HS.
+    + cbn [eff] in EF. inversion EF; subst c pr. unfold pop_val. norm.
+      destruct (vals f) as [|sv vs] eqn:EV; [cbn in L; lia|]. norm.
+      inversion V as [|? ? Vv Vs]; subst.
+      destruct sv; try exact Logic.I.
+      apply (match_cases_ok p f ((SDone, EMatch m sc cases) :: t) vs (blocks f) (nextb f) (uses f) (used m) n); try assumption.
+      * constructor; assumption.
+      * erewrite sim_cons; [|reflexivity|lia]. rewrite <- HS. f_equal. cbn [length]. rewrite uu_meta. cbn [emeta]. lia.
+      * cbn [MachineInv.pending pops fst snd entry_pops] in *. destruct b; cbn [entry_pops] in B; lia.
+      * unfold cfv in Vv. cbn [closure_free] in Vv. destruct payload; [exact Vv|exact Logic.I].
+      * reflexivity.
+    + cbn [eff] in EF. inversion EF; subst c pr. unfold pop_block. norm. cbn [entry_pops] in B.
+      destruct (blocks f) as [|b0 [|b1 bs]] eqn:EB; try (cbn [length] in B; lia).
+      unfold xres_ok. norm. split; [|reflexivity]. apply (ok_frame _ _ _ _ _ n); norm; try assumption.
+      * rewrite <- HS. f_equal. lia.
+      * cbn [length] in *. lia.
+      * now inversion BB.
 Qed.
 
 (* ---- one iteration of the eval loop ---------------------------------------- *)
